@@ -336,11 +336,22 @@ fn run_scenario(sc: &serde_json::Value) -> serde_json::Value {
     res
 }
 
-pub(crate) fn serve(_args: &[String]) -> i32 {
+pub(crate) fn serve(args: &[String]) -> i32 {
     util::install_quiet_panic_hook();
-    let stdin = std::io::stdin();
     let stdout = std::io::stdout();
-    for line in stdin.lock().lines() {
+    // Scenarios arrive on the file descriptor named by `--fd N` when given: the process's real
+    // stdin then belongs to the code under test (the controller closes it, so a program that
+    // ends up calling `read_line()` sees EOF instead of eating the next scenario or deadlocking
+    // on the stdin lock).
+    let input: Box<dyn BufRead> = match args.iter().position(|a| a == "--fd").and_then(|i| args.get(i + 1)) {
+        Some(n) => {
+            use std::os::unix::io::FromRawFd;
+            let fd: i32 = n.parse().expect("--fd takes a number");
+            Box::new(std::io::BufReader::new(unsafe { std::fs::File::from_raw_fd(fd) }))
+        }
+        None => Box::new(std::io::BufReader::new(std::io::stdin())),
+    };
+    for line in input.lines() {
         let Ok(line) = line else { break };
         if line.trim().is_empty() {
             continue;
